@@ -111,6 +111,15 @@ def positions(qc):
             return None
         return qc.with_(i, "cte0").from_(P.AliasedQuery("cte0")).from_(o).select(o.a, 32)
 
+    def upd_from(i):        # UPDATE .. SET .. FROM <source>: the source is a defining position (parentheses and alias)
+        i = i.as_("emb")
+        return qc.update(o).set(o.x, T.Field("a", table=i)).from_(i).where(o.y == 33)
+
+    def upd_from_joined(i):
+        i = i.as_("emb")
+        j = P.Table("j")
+        return qc.update(o).join(j).on(o.k == j.k).set(o.x, j.v).from_(i).where(o.y == 34)
+
     def ncols(i):
         sel = getattr(i, "__dict__", {}).get("_selects")
         return len(sel) if isinstance(sel, list) and sel else None
@@ -130,11 +139,12 @@ def positions(qc):
     def func_arg(i):
         return qc.from_(o).select(fn.Coalesce(i, 30))
 
-    return {"from": frm, "join": join, "in": in_, "in-under-not": notin_nested, "comparison": cmp_, "select-item": sel, "cte-body": cte, "cte-body-joined-outer": cte_joined, "cte-body-two-from-outer": cte_two_from,
+    return {"from": frm, "join": join, "in": in_, "in-under-not": notin_nested, "comparison": cmp_, "select-item": sel, "update-from": upd_from, "update-from-joined": upd_from_joined, "cte-body": cte, "cte-body-joined-outer": cte_joined, "cte-body-two-from-outer": cte_two_from,
             "set-operand": setop, "set-base": setop_base, "function-arg": func_arg}
 
 
 PH = re.compile(r"\$(\d+)")
+POS_ALIAS = {"from": "emb", "join": "emb", "update-from": "emb", "update-from-joined": "emb", "select-item": "sel_alias"}
 
 
 def render(obj, ctx, param, prefill=0):
@@ -195,6 +205,14 @@ def relational(label, qc, mk_inner, pos_name, pos):
             if param and ctx.dialect.name == "POSTGRESQL" and ivals:
                 cut = len(before) + len(itext) + 2
                 alt = alt[:cut] + PH.sub(lambda m: "$%d" % (int(m.group(1)) + len(ivals)), alt[cut:])
+        # ... followed by its alias where the position defines one (judged on the outer text itself: a marker that loses its alias too would hide it)
+        al = POS_ALIAS.get(pos_name)
+        if al and itext in sa:
+            aq = ctx.alias_quote_char or ctx.quote_char
+            rest = sa[sa.index(itext) + len(itext):]
+            if not (rest.startswith(") %s%s%s" % (aq, al, aq)) or rest.startswith(") AS %s%s%s" % (aq, al, aq))):
+                REL_FAIL.append({"label": label, "class": QNAMES[qc], "position": pos_name + " (the alias the position defines)", "mode": "param" if param else "inline",
+                                 "outer_sql": sa, "expected": "...(%s) %s%s%s..." % (itext[:80], aq, al, aq), "inner_standalone": itext})
         if expected != sa and alt != sa:
             REL_FAIL.append({"label": label, "class": QNAMES[qc], "position": pos_name, "mode": "param" if param else "inline",
                              "outer_sql": sa, "expected": expected, "inner_standalone": itext})
@@ -247,7 +265,7 @@ def check(run: core.Run):
         run, prop="C10", propfile="Props/C10.v", module="Props.C10", theorems=THEOREMS, header=HEADER, cases=cases(run, rng),
         what="the embedding statement", extra_violations=LazyViolations(), extra_cov=lazy_cov,
         rule="for each inner query (12 hand-made ones - data-modifying statements with RETURNING and row-locked selects included - with aliased terms in WHERE / GROUP BY / HAVING / ORDER BY / ON, nested, with CTE, with values in several "
-             "clauses; random selects and set operations) x 12 embedding positions (CTE body under a joining or two-source outer statement, FROM, JOIN, IN, IN under NOT in a mixed AND/OR group, comparison operand, select-list "
+             "clauses; random selects and set operations) x 14 embedding positions (UPDATE .. FROM source, CTE body under a joining or two-source outer statement, FROM, JOIN, IN, IN under NOT in a mixed AND/OR group, comparison operand, select-list "
              "item, CTE body, set-operation operand and base, function argument) x 6 classes x {inline, parameterised}: the outer statement's text must equal the text "
              "of the same outer statement around a marker query, with the marker's stand-alone text replaced by the inner query's stand-alone text (placeholders renumbered by "
              "the values preceding the position). Exact string equality between implementation outputs, evaluated in the harness; the Coq case file carries the "
